@@ -199,13 +199,24 @@ PROPS["C04"] = dict(
 )
 
 PROPS["C03"] = dict(
-    disabled=True, na_reason="model and correspondence tie built; theorems are being proved (statements in lean/RefmtProofs/Props/C03.lean)",
     level="proof",
     lean_module="RefmtProofs.Props.C03",
-    theorems=[],
+    theorems=["Refmt.C03.escape_unquote", "Refmt.C03.escape_is_body", "Refmt.C03.enc_accepts", "Refmt.C03.pretty_is_compact",
+              "Refmt.C03.enc_valid_partial", "Refmt.C03.roundtrip_partial", "Refmt.C03.enc_valid_iff_floatTextOk",
+              "Refmt.C03.roundtrip_of_floatTextOk"],
+    level_note="Trusted: Lean kernel + audited axioms; the hand-written model tied by the correspondence harness; Go stdlib as modelled. "
+               "enc_valid and roundtrip carry one explicit hypothesis, FloatsOk (every float token's text, as produced by the model's exact "
+               "big-number re-implementation of strconv.AppendFloat, is a complete RFC 8259 number that the decoder types): "
+               "enc_valid_iff_floatTextOk proves the unconditional statement EQUIVALENT to that hypothesis, so it is exactly the trusted "
+               "strconv part, validated against the real strconv on every run by the jsonenc stream.",
     streams=[dict(name="jsonenc", gen="jsonenc", rule="jsonenc")],
     title="JSON encoding is lossless and always valid JSON",
-    claim="(work in progress)",
+    claim="Theorems (all token trees in JSON's data model, all whitespace Line/Indent options): the encoder model accepts with done on "
+          "the last token; pretty output with insignificant whitespace stripped is exactly the compact output; the string escaper followed "
+          "by the decoder's unquoting is the identity on valid UTF-8 and maps each invalid byte to U+FFFD, its output is a legal RFC 8259 "
+          "string body and valid UTF-8; the output is read by the independent reference reader as the same value up to number typing and "
+          "decodes back through the decoder model (these two under the float-text hypothesis, proved equivalent to the unconditional "
+          "statement). Tie: token streams through the real encoder, checked by encoding/json, the reference reader and the real decoder.",
     rule_text="token sequences for the JSON encoder: every code point below U+3000 and a stride above (all in thorough), all two-byte "
               "strings, raw bytes, surrogate forms; int/uint boundaries; floats at the formatting switch points, integral floats, "
               "subnormals, max, random; all nesting shapes up to 5 (6) tokens under 4 option settings; random trees with random "
